@@ -63,6 +63,14 @@ def cases(tier):
         cfg = {'scenario': 'batch', 'n': n, 'x': x, 'members': [{'m': m, 'cap': m, 'values': [str(5 + jj) for jj in range(m)], 'promises': [str(5 + jj) for jj in range(m)], 'sym_bits': False}],
                'actions': ['VerifyOnly']}
         out.append({'cfg': cfg, 'kind': 'honest', 'name': 'value == promise at every position (n%d m%d)' % (n, m)})
+    # the proof is bound to (commitment_j, promise_j) as absorbed, not to their difference: (V_j - d*H, p_j - d) is refused, at every position
+    for (n, m, x) in [(8, 2, 1), (8, 4, 2), (4, 4, 1)]:
+        for j in range(m):
+            for (p0, p1) in ((7, 0), (3, 5)):
+                mem = {'m': m, 'cap': m, 'values': ['9'] * m, 'promises': [(str(p0) if jj == j else None) for jj in range(m)], 'sym_bits': False,
+                       'tamper_statement': [{'op': 'promise', 'j': j, 'value': str(p1)}, {'op': 'commitment_shift_h', 'j': j, 'by': p1 - p0}]}
+                cfg = {'scenario': 'batch', 'n': n, 'x': x, 'members': [mem], 'actions': ['VerifyOnly', 'RecoverAndVerify']}
+                out.append({'cfg': cfg, 'kind': 'shifted', 'name': 'promise %d: %d -> %d with commitment %d moved by %d*H (n%d m%d x%d)' % (j, p0, p1, j, p1 - p0, n, m, x)})
     # honest with u64::MAX promise at 64 bits
     cfg = {'scenario': 'batch', 'n': 64, 'x': 1, 'members': [{'m': 1, 'cap': 1, 'values': [str((1 << 64) - 1)], 'promises': [str((1 << 64) - 1)]}], 'actions': ['VerifyOnly']}
     out.append({'cfg': cfg, 'kind': 'honest', 'name': 'value = promise = u64::MAX at 64 bits'})
